@@ -173,6 +173,11 @@ func runC14(t *testing.T, c c14Cfg) {
 	pfo := mkParent("pf-"+uid, false, "f-"+uid, true)
 	sim.SetNested(pfo, "hold", "spec", "finalize") // its finalization does not finish during the test
 	cw.pf = s.MustCreate(pgvr, pfo)
+	// a managed sibling whose selector is unusable: it can never be synced, and it must not keep
+	// its healthy neighbours from hearing about orphans
+	pxo := mkParent("px-"+uid, true, "a-"+uid, false)
+	sim.SetNested(pxo, sim.Obj{"matchExpressions": []interface{}{sim.Obj{"key": "app", "operator": "NoSuchOperator", "values": []interface{}{"x"}}}}, "spec", "selector")
+	s.MustCreate(pgvr, pxo)
 	r.parent = cw.pa
 	if err := w.start(); err != nil {
 		inconclusive(t, "C14", id, err)
@@ -358,7 +363,7 @@ func runC14(t *testing.T, c c14Cfg) {
 	})
 	cw.expect("related-delete(selected)", []string{ka}, func() { s.ExtDelete(sim.SecretInfo.GVR(), relNS, "s1-"+uid, "") })
 	// the Zone is selected by name by every managed parent
-	allManaged := append([]string{ka, kb, objKeyOf(sc.ns(), "pc-"+uid)}, wantF...)
+	allManaged := append([]string{ka, kb, objKeyOf(sc.ns(), "pc-"+uid), objKeyOf(sc.ns(), "px-"+uid)}, wantF...)
 	if !c.Cluster {
 		allManaged = none // cluster-scoped objects are never related to a namespaced parent
 	}
